@@ -144,4 +144,47 @@ def fam_timeout(seed, i):
     return sc
 
 
-FAMILIES = {"core": fam_core, "life": fam_life, "fail": fam_fail, "restart": fam_restart, "timeout": fam_timeout}
+def fam_timers(seed, i):
+    """C10 (and the timer clause of C07): timers of mixed kinds, termination at any time by any cause."""
+    rng = random.Random(f"timers-{seed}-{i}")
+    sc = base("timers", seed, i, rng, horizon=rng.choice([6, 8, 10, 12]))
+    sc["idle_only"] = rng.random() < 0.5
+    tn = [0]
+
+    def timer_eff():
+        tn[0] += 1
+        kind = rng.choice(["interval", "interval", "interval_with", "interval_with", "delayed_send", "delayed_exec"])
+        return eff(kind, rng.randint(1, 3), f"t{tn[0]}")
+
+    sscr0 = [Y] * rng.choice([0, 1]) + [timer_eff() for _ in range(rng.choice([0, 1, 1, 2]))]
+    strat = rng.choice(["restart", "restart", "recreate", "none"])
+    cfg = {"cap": rng.choice([-1, -1, 0, 1, 2]), "strat": strat, "pscr": [Y] * rng.choice([0, 1]), "sscr": [sscr0], "owning": rng.random() < 0.3}
+    fault = rng.choice(["none", "none", "none", "panic", "cancel"])
+    if fault == "cancel":
+        sc["cancels"] = 1
+        sc["cancel_pct"] = rng.choice([3, 8])
+    ncl = rng.randint(1, 3)
+    names = [f"c{k+1}" for k in range(ncl)]
+    kinds = {c: rng.choice(["addr", "addr", "sender", "caller", "waddr"]) for c in names}
+    if cfg["owning"]:
+        kinds[rng.choice(names)] = "owning"
+    main, handles = setup_main(rng, cfg, kinds, rng.random() < 0.4)
+    sc["clients"]["main"] = main
+    w = {"send": 4, "call": 4, "yield": 2, "sleep": 4, "drop": 1.5, "stop": 1, "restart": 1 if strat != "none" else 0.3, "upgrade": 1, "join": 0.5, "await": 0.5, "stopped": 0.5}
+    cnt = [0]
+    for c in names:
+        slp = rng.random() < 0.3
+
+        def scripts():
+            opts = [[], [Y], [timer_eff()], [timer_eff(), Y], [eff("ctx_stop")]]
+            if fault == "panic":
+                opts.append([eff("panic")])
+            if slp:
+                opts.append([eff("sleep", 2)])
+            return rng.choice(opts)
+
+        sc["clients"][c] = Prog(rng, c, handles.get(c, {}), w, scripts, cnt).run(rng.randint(2, 7))
+    return sc
+
+
+FAMILIES = {"core": fam_core, "life": fam_life, "fail": fam_fail, "restart": fam_restart, "timeout": fam_timeout, "timers": fam_timers}
